@@ -14,6 +14,9 @@
 (***************************************************************************)
 EXTENDS Terms
 
+\* Named deviation (overridden with `Deviation <- ...` in negative configurations only)
+Deviation == "none"
+
 NoKey == [op |-> "nokey"]
 
 \* "Noise_X_25519_ChaChaPoly_SHA256" is 31 bytes <= HASHLEN: zero padded to 32, not hashed.
@@ -50,12 +53,13 @@ WInit(prologue, sPriv, sPub, ePriv, ePub, rs) ==
 
 WTokE(hs)  == [hs EXCEPT !.msg = Append(hs.msg, hs.ePub), !.sym = MixHash(hs.sym, hs.ePub)]
 WTokES(hs) == LET dh == Dh(hs.ePriv, hs.rs)
-              IN IF IsZeroDH(dh) THEN [hs EXCEPT !.ok = FALSE]
+              IN IF IsZeroDH(dh) /\ Deviation # "IgnoreDhZero" THEN [hs EXCEPT !.ok = FALSE]
                  ELSE [hs EXCEPT !.sym = MixKey(hs.sym, dh)]
 WTokS(hs)  == LET r == EncryptAndHash(hs.sym, hs.sPub)
               IN [hs EXCEPT !.msg = Append(hs.msg, r.out), !.sym = r.st]
 WTokSS(hs) == LET dh == Dh(hs.sPriv, hs.rs)
-              IN IF IsZeroDH(dh) THEN [hs EXCEPT !.ok = FALSE]
+              IN IF Deviation = "SkipSS" THEN hs
+                 ELSE IF IsZeroDH(dh) /\ Deviation # "IgnoreDhZero" THEN [hs EXCEPT !.ok = FALSE]
                  ELSE [hs EXCEPT !.sym = MixKey(hs.sym, dh)]
 WPayload(hs, payload) ==
               LET r == EncryptAndHash(hs.sym, payload)
@@ -87,13 +91,14 @@ RInit(prologue, sPriv, sPub) ==
 
 RTokE(hs, m)  == [hs EXCEPT !.re = m.e, !.sym = MixHash(hs.sym, m.e)]
 RTokES(hs)    == LET dh == Dh(hs.sPriv, hs.re)
-                 IN IF IsZeroDH(dh) THEN [hs EXCEPT !.ok = FALSE]
+                 IN IF IsZeroDH(dh) /\ Deviation # "IgnoreDhZero" THEN [hs EXCEPT !.ok = FALSE]
                     ELSE [hs EXCEPT !.sym = MixKey(hs.sym, dh)]
 RTokS(hs, m)  == LET r == DecryptAndHash(hs.sym, m.encS)
                  IN IF r.out = Fail THEN [hs EXCEPT !.ok = FALSE]
                     ELSE [hs EXCEPT !.rs = r.out, !.sym = r.st]
 RTokSS(hs)    == LET dh == Dh(hs.sPriv, hs.rs)
-                 IN IF IsZeroDH(dh) THEN [hs EXCEPT !.ok = FALSE]
+                 IN IF Deviation = "SkipSS" THEN hs
+                    ELSE IF IsZeroDH(dh) /\ Deviation # "IgnoreDhZero" THEN [hs EXCEPT !.ok = FALSE]
                     ELSE [hs EXCEPT !.sym = MixKey(hs.sym, dh)]
 
 RTok(hs, tok, m) == IF ~hs.ok THEN hs
